@@ -206,14 +206,17 @@ def builder_stages(prop, tier, seed):
                                                  "Concurrent": "TRUE", "MaxEdges": "2" if q else "1", "LocalRels": "<- MCLocalRels0"})
     conc = builder_stage("conc", prop, seed, {"Adds": "<- MCAddsR", "RegPkgs": "{}", "MaxEdges": "1", "MaxAdds": "2", "Contents": "{1, 2}"},
                          race=True, vh_args=["-props", prop, "-gamma", "%d" % (seed * 6), "-mode", "conc"])
+    # direction B: random worlds larger than the enumerated ones (3 packages x 3 module locations x 2 finders, up to 3 reported
+    # dependencies per artifact, 2 registry packages, 1-3 Add calls), no prediction: every observation is judged (VerdictW)
+    rand_worlds = builder_stage("randomworlds", prop, seed, {}, generator=["buildergen", "-n", "2500" if q else "50000"], exhaustive=False)
     live = [dict(kind="design", name="live1", module="Live_Builder", cfg="Live_Builder.cfg", properties=["Terminates", "EachDrainEnds", "QueuesBounded"]),
             dict(kind="design", name="live2", module="Live_Builder", cfg="Live_Builder2.cfg", properties=["Terminates", "EachDrainEnds", "QueuesBounded"])]
     if prop == "C14":
-        return [base, fan, sched, finders, conc] if q else live + [conc, base, fan, sched, finders, builder_stage("graph3", prop, seed, {"MaxEdges": "3", "Finders": '{"F1", "F2"}', "Adds": "<- MCAdds3", "Pkgs": '{"P1", "P2", "P3"}'}, sim={"num": 40000, "depth": 60}, workers=1)]
+        return [base, fan, sched, finders, conc, rand_worlds] if q else live + [conc, rand_worlds, base, fan, sched, finders, builder_stage("graph3", prop, seed, {"MaxEdges": "3", "Finders": '{"F1", "F2"}', "Adds": "<- MCAdds3", "Pkgs": '{"P1", "P2", "P3"}'}, sim={"num": 40000, "depth": 60}, workers=1)]
     # finders that return warnings together with the dependencies they report
     warn = builder_stage("warn", prop, seed, {"DiagKinds": '{"none", "warn"}', "MaxEdges": "2", "MaxAdds": "1", "Adds": "<- MCAddsR", "RegPkgs": "{}"})
     if prop == "C08":
-        return [base, coal, fan, finders, warn] if q else [base, coal, fan, finders, warn, vers]
+        return [base, coal, fan, finders, warn, rand_worlds] if q else [base, coal, fan, finders, warn, vers, rand_worlds]
     if prop == "C17":
         return [vers]
     if prop == "C12":
@@ -227,7 +230,7 @@ def builder_stages(prop, tier, seed):
     if prop == "C13":
         # all sequences of up to four Add calls (with repeats) over the four-add universe, each against its canonical order
         perm4 = builder_stage("perm4", prop, seed, {"MaxAdds": "4", "MaxEdges": "0", "Contents": "{1, 2}"})
-        return [coal, base, regsub, sched, conc, perm4] if not q else [coal, regsub, sched, conc]
+        return [coal, base, regsub, sched, conc, perm4, rand_worlds] if not q else [coal, regsub, sched, conc, rand_worlds]
     if prop == "C09":
         return [coal] if q else [coal, vers, base]
     raise KeyError(prop)
@@ -566,6 +569,11 @@ def check(vc, prop, tier, seed, t0):
                 judged = len(pairs)
                 if judged < res["mismatch"]:
                     exhaustive = False
+                if stage.get("generator"):
+                    # no prediction was made for generated inputs: an observation the judge accepts counts as agreeing
+                    okj = sum(1 for _, j in pairs if j["v"].get(P["key"], True))
+                    agree += okj
+                    mismatch -= okj
                 for obs, j in pairs:
                     v = j["v"]
                     if v.get(P["key"], True):
